@@ -63,6 +63,201 @@ def reader(loader):
 
 TASKS = [StructTask("writer", writer, textual=True), StructTask("reader", reader, textual=True)]
 
+# ---------------------------------------------------------------------------------------------------------------------
+# write_hvsr_object_to_file under contract (traditional, azimuthal and diffuse-field objects): which numbers reach np.savetxt in which column, and
+# which masks reach the JSON header.  np.savetxt / json.dumps are external (A-TEXT-ROUNDTRIP, A-JSON): the models record what they are handed.  Strings
+# (column titles, the header text) are opaque.  The statistics accessors are used through their contracts (C05 / C11).
+import z3
+from pyvc.core import I, R, B, A2, FuncV, ModV, DictV, StrV, Tup, NONE, ClsV, Undecided, ARef, lit
+from pyvc.contract import Contract, FunctionTask, sym_obj
+from pyvc import npmodel as npm
+import contracts.acc_traditional as ACT
+
+AR, AB = z3.ArraySort(I, R), z3.ArraySort(I, B)
+KW, MW = ACT.K, ACT.M
+FREQW = z3.Const("frequency", AR)
+
+
+def _m_deepcopy(ex, st, args, kw, node):
+    v = args[0]
+    if isinstance(v, DictV):
+        return DictV(dict(v.items))
+    raise Undecided("deepcopy of something other than the meta dictionary")
+
+
+def _m_json_dumps(ex, st, args, kw, node):
+    st.env["__json_meta"] = args[0]
+    return StrV("<json text>")
+
+
+def _m_savetxt(ex, st, args, kw, node):
+    st.env["__saved"] = Tup((args[0], args[1]))
+    return NONE
+
+
+_CLS = {c: ClsV(c) for c in ("HvsrTraditional", "HvsrAzimuthal", "HvsrDiffuseField")}
+W_ENV = dict(_CLS, deepcopy=FuncV(_m_deepcopy, "deepcopy"), json=ModV("json", {"dumps": FuncV(_m_json_dumps, "json.dumps")}),
+             np=ModV("np", dict(npm.NP.attrs, savetxt=FuncV(_m_savetxt, "np.savetxt"))))
+
+
+def _saved(ex, st, a, k, n_):
+    """SAVED(i, j): entry (i, j) of the array handed to np.savetxt"""
+    ref = st.env["__saved"][1]
+    return ex.sel2(ex.arr(st, ref), lit(a[0]), lit(a[1]))
+
+
+def _saved_shape(ex, st, a, k, n_):
+    d = ex.arr(st, st.env["__saved"][1])
+    return z3.And(d.shape[0] == lit(a[0]), d.shape[1] == lit(a[1]))
+
+
+def _json_entry(ex, st, a, k, n_):
+    m = st.env["__json_meta"]
+    return m.items[a[0].s]
+
+
+W_GHOST = dict(ACT.GHOST, SAVED=FuncV(_saved, "SAVED"), saved_shape=FuncV(_saved_shape, "saved_shape"), JSON=FuncV(_json_entry, "JSON"),
+               saved_to=FuncV(lambda ex, st, a, k, n_: z3.BoolVal(st.env["__saved"][0] is st.env["fname"]), "saved_to"))
+
+
+def _wt_inputs(ex, st):
+    fields = ACT._self_fields(ex, st)
+    fields["frequency"] = ex.alloc_arr(st, (MW,), FREQW, "real", "param:hvsr.frequency", tag="frequency")
+    fields["meta"] = DictV({"processing_method": StrV("traditional")}, owner="param:hvsr.meta")
+    st.env["hvsr"] = sym_obj(ex, st, "HvsrTraditional", fields, owner="param:hvsr")
+    st.env["fname"] = StrV("<fname>")
+    st.env["distribution_mc"], st.env["distribution_fn"] = z3.Int("distribution_mc"), z3.Int("distribution_fn")
+    st.env["K"], st.env["M"] = KW, MW
+    return [KW >= 0, MW >= 1]
+
+
+_h = lambda t: t.replace("self.", "hvsr.")
+_VWh = "hvsr.valid_window_boolean_mask"
+WRITE_T = Contract(
+    qual="hvsrpy.object_io.write_hvsr_object_to_file", params=["hvsr", "fname", "distribution_mc", "distribution_fn"], ghost=W_GHOST, make_inputs=_wt_inputs,
+    sym_lists={"data_headers_line": "str"},
+    raises_only_if={"ValueError": f"count({_VWh}) <= 1"},
+    ensures=["saved_to()", "saved_shape(M, K + 3)",
+             "forall(i, 0, M, SAVED(i, 0) == hvsr.frequency[i])",
+             "forall(i, 0, M, forall(k, 0, K, SAVED(i, 1 + k) == hvsr.amplitude[k, i]))",
+             f"forall(i, 0, M, SAVED(i, K + 1) == MEAN_ROWS(distribution_mc, hvsr.amplitude, {_VWh}, i))",
+             f"forall(i, 0, M, SAVED(i, K + 2) == STD_ROWS(distribution_mc, hvsr.amplitude, {_VWh}, i))",
+             "len(JSON('valid_peak_boolean_mask')) == K and forall(k, 0, K, JSON('valid_peak_boolean_mask')[k] == hvsr.valid_peak_boolean_mask[k])",
+             f"len(JSON('valid_window_boolean_mask')) == K and forall(k, 0, K, JSON('valid_window_boolean_mask')[k] == {_VWh}[k])"],
+    modifies=[], notes="traditional object: column 0 the frequencies, column 1+k curve k, the last two columns the mean and standard-deviation curves of the accepted "
+                       "windows for distribution_mc; the header carries both masks; the object is not written (ValueError when fewer than two windows are accepted: "
+                       "the standard-deviation curve is undefined)")
+WRITE_T.ghost_state = ("__saved", "__json_meta")
+_TRAD_CALLS = {"HvsrTraditional.mean_curve": Contract(qual=ACT.MEAN_CURVE.qual, params=["self", "distribution"], ghost=ACT.GHOST, ensures=ACT.MEAN_CURVE.ensures,
+                                                      modifies=[], make_result=ACT._curve_result),
+               "HvsrTraditional.std_curve": Contract(qual=ACT.STD_CURVE.qual, params=["self", "distribution"], ghost=ACT.GHOST, ensures=ACT.STD_CURVE.ensures,
+                                                     raises=ACT.STD_CURVE.raises, modifies=[], make_result=ACT._curve_result)}
+TASKS.append(FunctionTask(WRITE_T, module_env=W_ENV, registry=_TRAD_CALLS, label="hvsrpy.object_io.write_hvsr_object_to_file[traditional]",
+                          clauses=["the curves and derived columns written are those of the object; the header carries its masks"]))
+
+
+# diffuse field: two columns
+AMPD = z3.Const("amplitude", AR)
+
+
+def _wd_inputs(ex, st):
+    st.env["hvsr"] = sym_obj(ex, st, "HvsrDiffuseField", {"frequency": ex.alloc_arr(st, (MW,), FREQW, "real", "param:hvsr.frequency", tag="frequency"),
+                                                          "amplitude": ex.alloc_arr(st, (MW,), AMPD, "real", "param:hvsr.amplitude", tag="amplitude"),
+                                                          "meta": DictV({"processing_method": StrV("diffuse_field")}, owner="param:hvsr.meta")}, owner="param:hvsr")
+    st.env["fname"] = StrV("<fname>")
+    st.env["distribution_mc"], st.env["distribution_fn"] = z3.Int("distribution_mc"), z3.Int("distribution_fn")
+    st.env["M"] = MW
+    return [MW >= 1]
+
+
+WRITE_D = Contract(qual="hvsrpy.object_io.write_hvsr_object_to_file", params=["hvsr", "fname", "distribution_mc", "distribution_fn"], ghost=W_GHOST, make_inputs=_wd_inputs,
+                   ensures=["saved_to()", "saved_shape(M, 2)", "forall(i, 0, M, SAVED(i, 0) == hvsr.frequency[i] and SAVED(i, 1) == hvsr.amplitude[i])"],
+                   modifies=[], notes="diffuse-field object: frequencies and the curve")
+WRITE_D.ghost_state = ("__saved", "__json_meta")
+TASKS.append(FunctionTask(WRITE_D, module_env=W_ENV, label="hvsrpy.object_io.write_hvsr_object_to_file[diffuse_field]", clauses=["the curve written is the object's"]))
+
+# azimuthal object: the curves of every azimuth side by side in azimuth order, the weighted mean / standard-deviation curves of the azimuthal object
+# itself in the last two columns (the loop variable must not shadow the object: F-11), per-azimuth masks in the header
+import contracts.acc_azimuthal as ACZ
+from pyvc import objects as _objs
+from pyvc.objects import new_symlist, SObj
+
+HZ, HVZ, MZ = ACZ.H, ACZ.HV, ACZ.M
+NCUR = lambda a: _objs.fld("HvsrTraditional", "n_curves", I)(z3.Select(HVZ, a))
+OFFN = z3.Function("OFFN", I, I)            # ghost: number of curves on the azimuths before azimuth a
+_a1 = z3.Int("a!offn")
+_s1, _t1 = z3.Ints("s!offn t!offn")
+AX_OFFN = [OFFN(0) == 0, z3.ForAll([_a1], z3.Implies(_a1 >= 0, OFFN(_a1 + 1) == OFFN(_a1) + NCUR(_a1)), patterns=[OFFN(_a1 + 1)]),
+           # monotone (consequence of the unfolding and n_curves >= 0; base/step lemma below)
+           z3.ForAll([_s1, _t1], z3.Implies(z3.And(0 <= _s1, _s1 < _t1, _t1 <= HZ), OFFN(_s1) + NCUR(_s1) <= OFFN(_t1)), patterns=[z3.MultiPattern(OFFN(_s1), OFFN(_t1))]),
+           z3.ForAll([_s1], z3.Implies(z3.And(0 <= _s1, _s1 <= HZ), OFFN(_s1) >= 0), patterns=[OFFN(_s1)])]
+
+
+def _wa_inputs(ex, st):
+    hv = new_symlist(ex, st, "HvsrTraditional", length=HZ, arr=HVZ, owner="param:hvsr.hvsrs", name="hvsrs")
+    az = new_symlist(ex, st, None, length=HZ, arr=z3.Const("azimuths", AR), owner="param:hvsr.azimuths", name="azimuths")
+    st.env["hvsr"] = sym_obj(ex, st, "HvsrAzimuthal", {"hvsrs": hv, "azimuths": az, "meta": DictV({"processing_method": StrV("azimuthal")}, owner="param:hvsr.meta")},
+                             owner="param:hvsr")
+    st.env["fname"] = StrV("<fname>")
+    st.env["distribution_mc"], st.env["distribution_fn"] = z3.Int("distribution_mc"), z3.Int("distribution_fn")
+    st.env["H"], st.env["M"] = HZ, MZ
+    return [HZ >= 1, MZ >= 1, ACZ.NW >= 0] + ACZ._wf()
+
+
+def _mask_is(ex, st, a, k, n_):
+    """entry `a` of a list of masks is the mask `name` of per-azimuth object `a` (content over the whole index range)"""
+    lst, idx, name = a
+    d = st.heap[lst.sid]
+    o = SObj("HvsrTraditional", z3.Select(HVZ, lit(idx)), owner="param:hvsr.hvsrs")
+    s2 = st.fork()
+    m = ex.arr(s2, _objs.sobj_getattr(ex, s2, o, name.s))
+    return z3.Select(d.arr, lit(idx)) == z3.simplify(m.data)
+
+
+def _amp_at(ex, st, a, k, n_):
+    o = SObj("HvsrTraditional", z3.Select(HVZ, lit(a[0])), owner="param:hvsr.hvsrs")
+    s2 = st.fork()
+    return ex.sel2(ex.arr(s2, _objs.sobj_getattr(ex, s2, o, "amplitude")), lit(a[1]), lit(a[2]))
+
+
+WA_GHOST = dict(ACZ.GHOST, SAVED=FuncV(_saved, "SAVED"), saved_shape=FuncV(_saved_shape, "saved_shape"), JSON=FuncV(_json_entry, "JSON"),
+                saved_to=W_GHOST["saved_to"], OFFN=OFFN, NCUR=lambda a: NCUR(a), mask_is=FuncV(_mask_is, "mask_is"), AMP_AT=FuncV(_amp_at, "AMP_AT"),
+                FREQ=lambda i: z3.Select(ACZ.FREQ, i))
+WA_GHOST["ARR"] = FuncV(lambda ex, st, a, k, n_: ex.sel2(ex.arr(st, st.env["array"]), lit(a[0]), lit(a[1])), "ARR")
+WA_GHOST["arr_at"] = FuncV(lambda ex, st, a, k, n_: ex.sel2(ex.arr(st, a[0]), lit(a[1]), lit(a[2])), "arr_at")
+_COLS = "forall(a, 0, {n}, forall(k, 0, NCUR(a), forall(i, 0, M, {arr}(i, 1 + OFFN(a) + k) == AMP_AT(a, k, i))))"
+_VWs, _VPs = "'valid_window_boolean_mask'", "'valid_peak_boolean_mask'"
+WRITE_A = Contract(
+    qual="hvsrpy.object_io.write_hvsr_object_to_file", params=["hvsr", "fname", "distribution_mc", "distribution_fn"], ghost=WA_GHOST, axioms=AX_OFFN, make_inputs=_wa_inputs,
+    sym_lists={"data_headers_line": "str", "valid_window_boolean_masks": "boolarr", "valid_peak_boolean_masks": "boolarr"}, stable_shapes=("array",),
+    ensures=["saved_to()", "saved_shape(M, OFFN(H) + 3)",
+             "forall(i, 0, M, SAVED(i, 0) == FREQ(i))",
+             _COLS.format(n="H", arr="SAVED"),
+             f"forall(i, 0, M, SAVED(i, OFFN(H) + 1) == WMEAN(distribution_mc, 'amplitude', {_VWs}, i))",
+             f"forall(i, 0, M, SAVED(i, OFFN(H) + 2) == WSTD(distribution_mc, 'amplitude', {_VWs}, i))",
+             f"len(JSON('valid_window_boolean_masks')) == H and forall(a, 0, H, mask_is(JSON('valid_window_boolean_masks'), a, {_VWs}))",
+             f"len(JSON('valid_peak_boolean_masks')) == H and forall(a, 0, H, mask_is(JSON('valid_peak_boolean_masks'), a, {_VPs}))"],
+    loops={0: ["len(valid_window_boolean_masks) == _k0 and len(valid_peak_boolean_masks) == _k0",
+               f"forall(a, 0, _k0, mask_is(valid_window_boolean_masks, a, {_VWs}) and mask_is(valid_peak_boolean_masks, a, {_VPs}))"],
+           1: ["len(data_headers_line) == 1 + OFFN(_k1)"],
+           2: ["len(data_headers_line) == 1 + OFFN(_k1) + _k2"],
+           3: ["start_index == 1 + OFFN(_k3)", "forall(i, 0, M, arr_at(array, i, 0) == FREQ(i))",
+               _COLS.format(n="_k3", arr="ARR")]},
+    modifies=[], notes="azimuthal object: column 0 the common frequencies, then the curves of azimuth 0, 1, ... in list order, then the weighted mean and standard-deviation "
+                       "curves of the azimuthal object; the header carries the masks of every azimuth in the same order")
+WRITE_A.ghost_state = ("__saved", "__json_meta")
+_AZ_CALLS = {"HvsrAzimuthal.frequency": ACZ._REGC["HvsrAzimuthal.frequency"],
+             "HvsrAzimuthal.mean_curve": Contract(qual=ACZ.MEAN_CURVE.qual, params=["self", "distribution"], ghost=ACZ.GHOST, ensures=ACZ.MEAN_CURVE.ensures, modifies=[],
+                                                  make_result=ACZ.MEAN_CURVE.make_result),
+             "HvsrAzimuthal.std_curve": Contract(qual=ACZ.STD_CURVE.qual, params=["self", "distribution"], ghost=ACZ.GHOST, ensures=ACZ.STD_CURVE.ensures, modifies=[],
+                                                 make_result=ACZ.STD_CURVE.make_result)}
+TASKS.append(FunctionTask(WRITE_A, module_env=W_ENV, registry=_AZ_CALLS, label="hvsrpy.object_io.write_hvsr_object_to_file[azimuthal]",
+                          clauses=["azimuthal: every azimuth's curves in order, the azimuthal object's own derived columns, per-azimuth masks in the header"]))
+_n = z3.Int("n!l")
+from pyvc.contract import LemmaTask
+TASKS += [LemmaTask("OFFN-monotone-step", [_n >= 0, NCUR(_n) >= 0, OFFN(_n + 1) == OFFN(_n) + NCUR(_n)], z3.And(OFFN(_n) + NCUR(_n) <= OFFN(_n + 1), z3.Implies(OFFN(_n) >= 0, OFFN(_n + 1) >= 0)),
+                    "step of the induction behind the monotonicity / non-negativity axioms of the column offsets (A-INDUCTION)")]
+
 META = dict(
     level="other",
     explanation="structural obligations: the writer never rebinds its `hvsr` parameter and takes frequency / mean / std columns from it, deep-copies meta; the "
